@@ -10,6 +10,7 @@ by the search layer (see notes/C12.md).
 -/
 import Proofs.Lemmas.C12Descr
 import Proofs.Lemmas.C12Dist
+import Proofs.Lemmas.C12Pct
 import Proofs.Lemmas.C12Bisect
 import Model.Stats.TTest
 
@@ -54,6 +55,191 @@ theorem variance_exact (xs : List ℚ) (h : 2 ≤ xs.length) :
 
 example : variance [(1 : ℚ), 2, 3, 4] = some (5 / 3) := by decide +kernel
 
+
+/-! ### bounds -/
+
+theorem lsum_between (lo hi : ℚ) (xs : List ℚ) (h : ∀ x ∈ xs, lo ≤ x ∧ x ≤ hi) :
+    (xs.length : ℚ) * lo ≤ lsum xs ∧ lsum xs ≤ (xs.length : ℚ) * hi := by
+  induction xs with
+  | nil => simp [lsum]
+  | cons x t ih =>
+    obtain ⟨a, b⟩ := ih (fun y hy => h y (List.mem_cons_of_mem _ hy))
+    obtain ⟨c, d⟩ := h x (List.mem_cons_self)
+    simp only [lsum, List.length_cons]
+    push_cast
+    constructor <;> linarith
+
+theorem boundsLoop_spec (xs : List ℚ) : ∀ mn mx : ℚ,
+    (boundsLoop mn mx xs).1 ≤ mn ∧ mx ≤ (boundsLoop mn mx xs).2 ∧
+    ∀ x ∈ xs, (boundsLoop mn mx xs).1 ≤ x ∧ x ≤ (boundsLoop mn mx xs).2 := by
+  induction xs with
+  | nil => intro mn mx; simp [boundsLoop]
+  | cons x t ih =>
+    intro mn mx
+    simp only [boundsLoop, lt_rat]
+    obtain ⟨a, b, c⟩ := ih (if x < mn then x else mn) (if mx < x then x else mx)
+    have h1 : (if x < mn then x else mn) ≤ mn ∧ (if x < mn then x else mn) ≤ x := by
+      split <;> constructor <;> linarith
+    have h2 : mx ≤ (if mx < x then x else mx) ∧ x ≤ (if mx < x then x else mx) := by
+      split <;> constructor <;> linarith
+    refine ⟨by linarith [h1.1], by linarith [h2.1], ?_⟩
+    intro y hy
+    rcases List.mem_cons.mp hy with e | hm
+    · subst e; exact ⟨by linarith [h1.2], by linarith [h2.2]⟩
+    · exact c y hm
+
+/-- **mean_between_bounds** — `Bounds` returns a lower and an upper bound of every element, and
+the (exact) mean lies between them. -/
+theorem mean_between_bounds (xs : List ℚ) (hne : xs ≠ []) :
+    ∃ mn mx m, bounds xs = some (mn, mx) ∧ mean xs = some m ∧
+      (∀ x ∈ xs, mn ≤ x ∧ x ≤ mx) ∧ mn ≤ m ∧ m ≤ mx := by
+  cases xs with
+  | nil => exact absurd rfl hne
+  | cons x t =>
+    obtain ⟨_, _, c⟩ := boundsLoop_spec (x :: t) x x
+    obtain ⟨l1, l2⟩ := lsum_between _ _ (x :: t) c
+    have hl : (0 : ℚ) < ((x :: t).length : ℚ) := by
+      have : 0 < (x :: t).length := by simp
+      exact_mod_cast this
+    refine ⟨(boundsLoop x x (x :: t)).1, (boundsLoop x x (x :: t)).2, _, rfl,
+      mean_incremental_exact (x :: t) hne, c, ?_, ?_⟩
+    · rw [le_div_iff₀ hl]; linarith
+    · rw [div_le_iff₀ hl]; linarith
+
+/-! ### percentiles -/
+
+/-- value of `Sample.Percentile` on a non-empty sample flagged sorted -/
+def pctVal (xs : List ℚ) (p : ℚ) : ℚ :=
+  if p ≤ 0 then xs.getD 0 0 else if 1 ≤ p then xs.getD (xs.length - 1) 0 else posVal xs (posOf xs p)
+
+theorem percentile_eq_pctVal (xs : List ℚ) (hne : xs ≠ []) (p : ℚ) :
+    percentile xs true p = some (pctVal xs p) := percentile_sorted_eq xs hne p
+
+/-- **percentile_bounded** — on an ascending sample every percentile (any p, including the
+clamped p ≤ 0 and p ≥ 1) lies between the minimum `xs[0]` and the maximum `xs[N−1]`. -/
+theorem percentile_bounded (xs : List ℚ) (hs : SortedL xs) (hne : xs ≠ []) (p : ℚ) :
+    xs.getD 0 0 ≤ pctVal xs p ∧ pctVal xs p ≤ xs.getD (xs.length - 1) 0 := by
+  have hl : 0 < xs.length := List.length_pos_iff.mpr hne
+  have h0l : xs.getD 0 0 ≤ xs.getD (xs.length - 1) 0 := hs _ _ (Nat.zero_le _) (by omega)
+  unfold pctVal
+  split
+  · exact ⟨le_refl _, h0l⟩
+  · split
+    · exact ⟨h0l, le_refl _⟩
+    · exact posVal_bounded xs hs hl _
+
+/-- **percentile_mono** — on an ascending sample `Percentile` is monotone in p over the whole
+real line (clamps included). -/
+theorem percentile_mono (xs : List ℚ) (hs : SortedL xs) (hne : xs ≠ []) {p q : ℚ} (hpq : p ≤ q) :
+    pctVal xs p ≤ pctVal xs q := by
+  have hl : 0 < xs.length := List.length_pos_iff.mpr hne
+  have bq := percentile_bounded xs hs hne q
+  have bp := percentile_bounded xs hs hne p
+  by_cases hp0 : p ≤ 0
+  · have : pctVal xs p = xs.getD 0 0 := by simp [pctVal, hp0]
+    rw [this]; exact bq.1
+  · by_cases hq1 : 1 ≤ q
+    · have hq0 : ¬ q ≤ 0 := by linarith
+      have : pctVal xs q = xs.getD (xs.length - 1) 0 := by simp [pctVal, hq0, hq1]
+      rw [this]; exact bp.2
+    · have hp1 : ¬ 1 ≤ p := by linarith
+      have hq0 : ¬ q ≤ 0 := by linarith
+      have e1 : pctVal xs p = posVal xs (posOf xs p) := by simp [pctVal, hp0, hp1]
+      have e2 : pctVal xs q = posVal xs (posOf xs q) := by simp [pctVal, hq0, hq1]
+      rw [e1, e2]
+      apply posVal_mono xs hs hl
+      unfold posOf
+      have : (0 : ℚ) ≤ xs.length := Nat.cast_nonneg _
+      nlinarith
+
+/-- **percentile_interpolates** — R8: for 0 < p < 1 with position h = 1/3 + p(N+1/3) and
+k = ⌊h⌋, 1 ≤ k < N, the value is the convex combination (1−f)·x_k + f·x_{k+1} (1-based order
+statistics, f = h − k ∈ [0,1)) and lies between them; and the k-th order statistic is attained
+exactly at p_k = (k − 1/3)/(N + 1/3). -/
+theorem percentile_interpolates (xs : List ℚ) (hs : SortedL xs) (p : ℚ) (hp : 0 < p ∧ p < 1)
+    (k : ℕ) (hk : (posOf xs p).floor = (k : ℤ)) (hk1 : 1 ≤ k) (hkN : k < xs.length) :
+    pctVal xs p = (1 - (posOf xs p - k)) * xs.getD (k - 1) 0 + (posOf xs p - k) * xs.getD k 0 ∧
+    0 ≤ posOf xs p - k ∧ posOf xs p - k < 1 ∧
+    xs.getD (k - 1) 0 ≤ pctVal xs p ∧ pctVal xs p ≤ xs.getD k 0 := by
+  have hp0 : ¬ p ≤ 0 := not_le.mpr hp.1
+  have hp1 : ¬ 1 ≤ p := not_le.mpr hp.2
+  have e1 : pctVal xs p = posVal xs (posOf xs p) := by simp [pctVal, hp0, hp1]
+  have c1 : ¬ ((k : ℤ) ≤ 0) := by omega
+  have c2 : ¬ ((k : ℤ) ≥ (xs.length : ℤ)) := by omega
+  have f0 : 0 ≤ posOf xs p - k := by
+    have := Rat.floor_le (posOf xs p); rw [hk] at this; push_cast at this; linarith
+  have f1 : posOf xs p - k < 1 := by
+    have := Rat.lt_floor_add_one (posOf xs p); rw [hk] at this; push_cast at this; linarith
+  have hd := hs (k - 1) k (by omega) hkN
+  have ev : posVal xs (posOf xs p) =
+      xs.getD (k - 1) 0 + (posOf xs p - k) * (xs.getD k 0 - xs.getD (k - 1) 0) := by
+    unfold posVal
+    rw [hk, if_neg c1, if_neg c2]
+    simp
+  rw [e1, ev]
+  refine ⟨by ring, f0, f1, by nlinarith, by nlinarith⟩
+
+theorem percentile_at_order_statistic (xs : List ℚ) (k : ℕ) (hk1 : 1 ≤ k) (hkN : k < xs.length) :
+    pctVal xs (((k : ℚ) - 1 / 3) / ((xs.length : ℚ) + 1 / 3)) = xs.getD (k - 1) 0 := by
+  have hN : (0 : ℚ) < (xs.length : ℚ) + 1 / 3 := by positivity
+  have hkq : (1 : ℚ) ≤ k := by exact_mod_cast hk1
+  have hkN' : (k : ℚ) + 1 ≤ xs.length := by exact_mod_cast hkN
+  have hpos : posOf xs (((k : ℚ) - 1 / 3) / ((xs.length : ℚ) + 1 / 3)) = k := by
+    unfold posOf; field_simp; ring
+  have hp0 : ¬ (((k : ℚ) - 1 / 3) / ((xs.length : ℚ) + 1 / 3) ≤ 0) := by
+    apply not_le.mpr; apply div_pos <;> linarith
+  have hp1 : ¬ (1 ≤ ((k : ℚ) - 1 / 3) / ((xs.length : ℚ) + 1 / 3)) := by
+    apply not_le.mpr; rw [div_lt_one hN]; linarith
+  have hfl : (k : ℚ).floor = (k : ℤ) := by
+    have : ((k : ℤ) : ℚ) = (k : ℚ) := by push_cast; rfl
+    rw [← this]; exact Rat.floor_intCast _
+  have c1 : ¬ ((k : ℤ) ≤ 0) := by omega
+  have c2 : ¬ ((k : ℤ) ≥ (xs.length : ℤ)) := by omega
+  simp only [pctVal, hp0, hp1, if_false, hpos]
+  unfold posVal
+  rw [hfl, if_neg c1, if_neg c2]
+  simp
+
+/-- the sort used for unsorted samples yields an ascending permutation, so the statements above
+apply to `Percentile` of ANY sample through `percentile xs false p = percentile (sortXs xs) true p`
+(0 < p < 1) and the minimum/maximum are those of the sample -/
+theorem sortXs_sorted_perm (xs : List ℚ) : SortedL (sortXs xs) ∧ (sortXs xs).Perm xs := by
+  constructor
+  · have hp : List.Pairwise (fun a b : ℚ => Arith.le a b = true) (sortXs xs) := by
+      unfold sortXs
+      apply List.pairwise_mergeSort
+      · intro a b c h1 h2
+        rw [le_rat] at *; exact le_trans h1 h2
+      · intro a b
+        rcases le_total a b with h | h
+        · simp [(le_rat a b).mpr h]
+        · simp [(le_rat b a).mpr h]
+    intro i j hij hj
+    rcases Nat.eq_or_lt_of_le hij with e | hlt
+    · subst e; exact le_refl _
+    · have := List.pairwise_iff_getElem.mp hp i j (by omega) hj hlt
+      rw [le_rat] at this
+      rw [List.getD_eq_getElem?_getD, List.getD_eq_getElem?_getD,
+        List.getElem?_eq_getElem (by omega : i < _), List.getElem?_eq_getElem hj]
+      exact this
+  · exact List.mergeSort_perm _ _
+
+theorem percentile_unsorted (xs : List ℚ) (p : ℚ) (hp : 0 < p ∧ p < 1) :
+    percentile xs false p = percentile (sortXs xs) true p := by
+  have h0 : ¬ p ≤ 0 := not_le.mpr hp.1
+  have h1 : ¬ 1 ≤ p := not_le.mpr hp.2
+  have hl : (sortXs xs).isEmpty = xs.isEmpty := by
+    have hlen := (List.mergeSort_perm xs (fun a b => Arith.le a b)).length_eq
+    unfold sortXs
+    cases hx : xs with
+    | nil => simp
+    | cons a t =>
+      cases hm : ((a :: t).mergeSort fun a b => Arith.le a b) with
+      | nil => rw [hx, hm] at hlen; simp at hlen
+      | cons _ _ => simp
+  unfold percentile
+  simp only [hl, le_rat, ofNat_rat, Nat.cast_zero, Nat.cast_one, h0, h1, if_false,
+    Bool.false_eq_true, if_true]
 
 /-! ### t-tests -/
 section TTest
